@@ -28,6 +28,9 @@ var files = []genFile{
 	{"AbortOps.lean", genAbortOps},
 	{"VmFields.lean", genVmFields},
 	{"Adapters.lean", genAdapters},
+	{"EncTags.lean", genEncTags},
+	{"EncBuiltins.lean", genEncBuiltins},
+	{"EncDispatch.lean", genEncDispatch},
 }
 
 func main() {
